@@ -137,6 +137,16 @@ CHECKS.update({
    technique='Coq proof over AST-generated selection pipeline; piecewise vm_compute correspondence',
    ref='DESIGN.md section 7, C11'),
 })
+CHECKS.update({
+ 'C19': dict(
+   text='Machine-checked proof (Coq) about executable life-cycle state machines (ScipyModel families incl. TruncatedGaussian and GaussianKDE, the selecting wrapper, Bivariate, GaussianMultivariate): fit purity over arbitrary fit histories '
+        '(full for every family except GaussianKDE whose cached sample size refutes it, with witness), unfitted queries raise NotFittedError, multivariate validation leaves the state unchanged, get_instance returns a fresh configured object, '
+        'definition-before-use of np.empty cells in vines (refuted with witness); AST-generated facts (store_args classes, validated fits, check_fit-first methods, guard shapes, fit writes) decided by vm_compute. '
+        'Tie: random and scripted fit/query histories on the real classes vs vm_compute of the machine over captured oracle tables; refit-vs-fresh and misuse oracles on every class incl. vines.',
+   note=TB + 'Model.Lifecycle is hand-written (correspondence); scipy fits/optimisers are oracle tables captured per run; datasets are abstracted to (identity, constant?, range, size).',
+   technique='Coq induction over fit histories on hand-written state machines; AST facts; history correspondence',
+   ref='DESIGN.md section 7, C19'),
+})
 NOT_YET = {}
 def main():
     props = [json.loads(l) for l in open(os.path.join(V, 'properties.jsonl'))]
